@@ -131,6 +131,24 @@ CHECKS.update({
         technique="Kani/CBMC bounded model checking with symbolic fault bits in the thread/task models; expected-failure set comparison"),
 })
 
+CHECKS.update({
+    "C09": dict(
+        level="model_checking", ref="3 (C09)",
+        text="Bounded model checking under a controlling executor: gate futures with SYMBOLIC pending counts (shape N) and harness-opened gates with stored wakers where the harness opens a SYMBOLIC "
+             "subset of closed gates after every poll, the empty subset being a spurious poll (shape F). One CBMC query per program shows for all readiness orders and batches: nothing is evaluated "
+             "and no task spawned before the first poll; after poll k every branch that could finish has finished (a pending branch never blocks a ready sibling); every pending poll comes with a "
+             "root wake-up and every stored waker that is called notifies the root (and only those); Ready arrives exactly at the first poll at which every branch can complete.",
+        technique="Kani/CBMC bounded model checking of macro expansions under a deterministic executor with symbolic readiness (gate futures, stored wakers)"),
+    "C16": dict(
+        level="model_checking", ref="3 (C16), 5.2",
+        text="Bounded model checking of option programs: every permutation (quick: first and last) of each legal option set per macro kind x profiles with equal and differing depths. Logging / "
+             "marking joiners decide: the joiner runs exactly once per executed multi-branch step, with exactly the active branches in branch order, and its output is the step result (position marks "
+             "arrive in the result, C05's closed form otherwise); lazy_branches(true) hands over zero-argument closures (reverse call order observed on the event clock); transpose_results(false) "
+             "uses the joiner's already transposed Result in every step; programs with futures_crate_path build and verify in a second harness crate that has futures only under a renamed package. "
+             "The 'each at most once' rejection clause is not decided.",
+        technique="Kani/CBMC bounded model checking of macro expansions with logging joiners; renamed-futures harness crate for the path option"),
+})
+
 NOT_APPLICABLE = {
     "C15": "Quantifies over token streams fed to the expander and has no run-time dimension; deciding it needs symbolic execution of JoinInputDefault::parse + generate_join, "
            "and Kani 0.68 ICEs on proc_macro2::Ident::new / does not finish pushing one token into a TokenStream in 900 s (DESIGN.md 1.1, 4). A hand model of the parser would not be the repository's code.",
